@@ -53,6 +53,10 @@ func otherMode(mode string) {
 		default:
 			kind = "unlocked-" + kind
 		}
+		locks := f.Locks
+		if locks == nil {
+			locks = []string{}
+		}
 		w.Put(vh.Case{
 			Coq: lockset.CoqFact(f),
 			// non-trivial: an access outside the constructors, i.e. one that needs a guard,
@@ -61,7 +65,7 @@ func otherMode(mode string) {
 			Key:        lockset.CoqFact(f),
 			Kind:       kind,
 			Sample: map[string]any{"struct": f.Struct, "field": f.Field, "write": f.Write, "function": f.Fn,
-				"locks_held": f.Locks, "after_escape": f.Escaped},
+				"locks_held": locks, "after_escape": f.Escaped},
 		})
 	}
 	w.Close()
